@@ -1,8 +1,14 @@
 package c20
 
 import (
+	"context"
+	"fmt"
+	"sync/atomic"
 	"testing"
+	"time"
 
+	"github.com/iotaledger/hive.go/app/daemon"
+	"verifharness/internal/ctl"
 	"verifharness/internal/stats"
 )
 
@@ -30,32 +36,98 @@ func TestRegressionRunWaitsForWorkersAddedLater(t *testing.T) {
 	}
 }
 
-// TestKnownRunWaitGroupReuse (thorough tier only) aims at the proposed open known finding KF-C20-1 without excluding its
-// signature: Run is waiting while the only worker of an order finishes and the name is registered again under the same
-// order. A recovered sync.WaitGroup panic of Run is reported with stats.Known and never fails the test; anything else
-// the oracle finds in these scenarios is a violation as usual.
-func TestKnownRunWaitGroupReuse(t *testing.T) {
-	const check = "known_run_waitgroup_reuse"
-	stats.Rule(check, "fixed scenario (Run in its own goroutine, one held worker of order 1, one worker of order 0 that finishes and is re-registered under order 0) repeated; counts how often Run panics inside sync.WaitGroup")
+// TestRegressionRunWaitGroupReuse aims at the former known finding KF-C20-1 (fixed in /repo by 90c8b2e): Run is waiting
+// while the only worker of an order finishes and the name is registered again under the same order. Run used to panic
+// inside sync.WaitGroup in about 2% of the repetitions; any failure of the scenario is a violation.
+func TestRegressionRunWaitGroupReuse(t *testing.T) {
+	const check = "regression_run_waitgroup_reuse"
+	stats.Rule(check, "fixed scenario (Run in its own goroutine, one held worker of order 1, one worker of order 0 that finishes and is re-registered under order 0) repeated 300 times (thorough 20000); the usual scenario oracle, a panic of Run included")
 	sc := scenario{Workers: []wspec{{Name: "w0", Order: 0, When: "pre", Beh: "early_rereg", ReOrder: 0, ReBeh: "immediate"}, {Name: "w1", Order: 1, When: "pre", Beh: "hold"}},
 		StartMode: "run", Callers: []string{"saw"}}
-	n := stats.Scale(200, 20000)
-	seen := 0
+	n := stats.Scale(300, 20000)
 	for i := 0; i < n; i++ {
-		known := false
 		labels := map[string]bool{}
 		nontrivial := false
-		failure := execScenario(sc, labels, &nontrivial, true, &known)
-		if known {
-			seen++
-			stats.Known(knownRunWaitGroupReuse)
-			stats.Label(check, "run_panicked_in_waitgroup")
-		} else if failure != "" {
+		if failure := execScenario(sc, labels, &nontrivial); failure != "" {
 			stats.Violation(check, map[string]any{"scenario": sc, "failure": failure})
 			t.Fatalf("%s: %s", check, failure)
 		}
 	}
 	stats.Bulk(check, int64(n), 0, false, sc)
-	stats.Note(check, "run_panics_observed", seen)
-	t.Logf("Run panicked inside sync.WaitGroup in %d of %d repetitions", seen, n)
+}
+
+// Run returned while a worker that had been added at a NEW shutdown order after Run's start was still running, as soon
+// as the workers Run knew about had returned on their own - without a shutdown (variant 1) or with an asynchronous
+// Shutdown() issued before the last of those workers returned (variant 2). Direct API calls, no scenario machinery.
+func TestRegressionRunWaitsForWorkerAtNewOrder(t *testing.T) {
+	const check = "regression_run_new_order"
+	stats.Rule(check, "fixed histories: worker a (order 0); Run in its own goroutine; worker b (order 1, returns 10 ms after its cancel) is added to the running daemon; [Shutdown()]; a returns on its own. Oracle: Run has not returned while b has not returned (without Shutdown: Run is still waiting 60 ms later; ShutdownAndWait then ends both)")
+	fatal := func(format string, a ...any) {
+		stats.Violation(check, map[string]any{"failure": fmt.Sprintf(format, a...)})
+		t.Fatalf(format, a...)
+	}
+	for _, withShutdown := range []bool{false, true} {
+		for iter := 0; iter < 20; iter++ {
+			d := daemon.New()
+			release := make(chan struct{})
+			if err := d.BackgroundWorker("a", func(ctx context.Context) {
+				select {
+				case <-release:
+				case <-ctx.Done():
+				}
+			}, 0); err != nil {
+				fatal("BackgroundWorker(a): %v", err)
+			}
+			runReturned := make(chan struct{})
+			go func() { d.Run(); close(runReturned) }()
+			if !awaitTrue(d.IsRunning, ctl.HangTimeout) {
+				fatal("the daemon did not start")
+			}
+			time.Sleep(2 * time.Millisecond) // Run is waiting now (steering only)
+			var bReturned atomic.Bool
+			if err := d.BackgroundWorker("b", func(ctx context.Context) {
+				<-ctx.Done()
+				time.Sleep(10 * time.Millisecond)
+				bReturned.Store(true)
+			}, 1); err != nil {
+				fatal("BackgroundWorker(b) on the running daemon: %v", err)
+			}
+			if withShutdown {
+				d.Shutdown() // asynchronous by contract
+			}
+			close(release) // a returns on its own
+			if withShutdown {
+				if !ctl.WaitChan(runReturned, ctl.HangTimeout) {
+					fatal("Run did not return after Shutdown()\n%s", ctl.Dump())
+				}
+				if !bReturned.Load() {
+					fatal("iteration %d: Run returned although worker b (added at a new order while the daemon was running) had not returned; Shutdown() had been called before", iter)
+				}
+			} else {
+				if ctl.WaitChan(runReturned, 60*time.Millisecond) && !bReturned.Load() {
+					fatal("iteration %d: Run returned while worker b (added at a new order while the daemon was running) is still running and nobody asked for a shutdown", iter)
+				}
+			}
+			if !ctl.WithinHang(d.ShutdownAndWait) {
+				fatal("ShutdownAndWait did not return\n%s", ctl.Dump())
+			}
+			if !ctl.WaitChan(runReturned, ctl.HangTimeout) {
+				fatal("Run did not return after ShutdownAndWait\n%s", ctl.Dump())
+			}
+			if !bReturned.Load() {
+				fatal("ShutdownAndWait / Run returned before worker b had returned")
+			}
+		}
+	}
+	stats.Bulk(check, 40, 0, false, "a(order 0) | Run | b(order 1) added | [Shutdown] | a returns")
+}
+
+func awaitTrue(cond func() bool, max time.Duration) bool {
+	for deadline := time.Now().Add(max); time.Now().Before(deadline); time.Sleep(100 * time.Microsecond) {
+		if cond() {
+			return true
+		}
+	}
+
+	return cond()
 }
